@@ -5,14 +5,16 @@ Driver commands for argument validation (C12).  Names travel as hex of their UTF
 is the empty name); types as `(T <hex base> n0 … nk)` (see `Driver/Ty.lean`); values in the common
 value syntax.  Both lists are given in the maps' iteration order.
 
-  (validate-args (vars (<name> <ty>)…) (args (<name> <value>)…))
-      → ok
+  (validate-args (vars (<name> <ty>)…) (args (<name> <value>)…) [(file <hex>)])
+      → ok                 (the optional `(file …)` names the repo query the implementation side
+                            compiles to obtain these variables; the model ignores it)
       | (err E)            a single error, returned as itself
       | (errs E E…)        `MultipleErrors`, in the order the code pushes them
       | panic
     E ::= (ArgumentTypeError <name> <hex of the type's text>)
         | (MissingArguments <name>…) | (UnusedArguments <name>…)
-  (infer-type <ty>…)      → none | (T …) | panic     running intersect over the uses of a variable
+  (infer-type (uses <ty>…) [(from <hex file> <hex variable>)])
+      → none | (T …) | panic     running intersect over the uses of a variable
 -/
 namespace TF.Driver
 open TF Sexp Ty Args
@@ -54,8 +56,7 @@ def toTys : List Sexp → Option (Outcome (List Ty))
     | .ok ty, .ok tl => pure (.ok (ty :: tl))
     | _, _ => pure .panic
 
-def handleArgs : String → List Sexp → Option String
-  | "validate-args", [list (atom "vars" :: vs), list (atom "args" :: as)] => do
+def validateArgsCmd (vs as : List Sexp) : Option String := do
     let vars ← toVars vs
     let args ← toArgs as
     match vars with
@@ -65,7 +66,8 @@ def handleArgs : String → List Sexp → Option String
       | .panic => pure "panic"
       | .ok (.ok ()) => pure "ok"
       | .ok (.error e) => pure (renderArgsError e)
-  | "infer-type", uses => do
+
+def inferTypeCmd (uses : List Sexp) : Option String := do
     match ← toTys uses with
     | .panic => pure "panic"
     | .ok uses =>
@@ -73,6 +75,13 @@ def handleArgs : String → List Sexp → Option String
       | .panic => pure "panic"
       | .ok none => pure "none"
       | .ok (some t) => pure (renderTy t)
+
+def handleArgs : String → List Sexp → Option String
+  | "validate-args", [list (atom "vars" :: vs), list (atom "args" :: as)] => validateArgsCmd vs as
+  | "validate-args", [list (atom "vars" :: vs), list (atom "args" :: as), list [atom "file", atom _]] =>
+    validateArgsCmd vs as
+  | "infer-type", [list (atom "uses" :: uses)] => inferTypeCmd uses
+  | "infer-type", [list (atom "uses" :: uses), list [atom "from", atom _, atom _]] => inferTypeCmd uses
   | _, _ => none
 
 end TF.Driver
